@@ -331,6 +331,51 @@ def bordered (s : List Int) : Bool :=
   -- a separator made of spaces only cannot be told from padding either
   (!s.isEmpty && s.all (· == 0x20))
 
+/-- the pieces between the occurrences of a self-overlapping separator ("\n\n", "||") are the same under every
+reading when none of them begins with the separator's last atom or ends with its first -/
+def cleanSplit (s : List Int) (pieces : List (List Int)) : Bool :=
+  !bordered s || pieces.all fun p => p.head? != s.getLast? && p.getLast? != s.head?
+
+/-- C12 in paragraph mode for a paragraph separator with affixes (parts that share a line with the
+neighbouring paragraphs; the code pads a paragraph with stand-ins of the affixes' widths while it justifies,
+and takes them out again by count), default trailing policy, piece by piece (the pieces of C11): the number
+of lines is unchanged; the last line of the padded piece is untouched unless JustifyLastLine; a line that
+shares no line with an affix is justified as specified.  Lines that carry stand-ins are not constrained.
+(Defect D18, second site: stand-ins that occur in the line separator were split off as lines of their own and
+the paragraph's last line was justified.) -/
+def checkJustifyAffix (text : List Int) (w : Int) (od : Options Int) (out : List Int) : String :=
+  let sep := od.lineSep
+  if od.noTrailing then "skip:non-default-trailing-policy"
+  else if sep.isEmpty ∨ bordered sep ∨ !sepsIndependent od ∨
+      (od.paraSep ++ sep) == (sep ++ od.paraSep) ∨ sep.head? == some 0x20 ∨ sep.getLast? == some 0x20 then
+    "skip:paragraph-separator-with-affixes"
+  else
+    match paraCalls (.root text od) od with
+    | .error _ => "skip:paragraph-decomposition"
+    | .ok cs =>
+      let qs := splitOn out od.paraSep
+      if joinWith od.paraSep (cs.map (·.1)) != text ∨ qs.length != cs.length ∨
+          !cleanSplit od.paraSep (cs.map (·.1) ++ qs) then "skip:paragraph-decomposition"
+      else if !stableDom [text] [sep, od.paraSep] then "skip:not-stable"
+      else Id.run do
+        for ((p, pre, suf), q) in cs.zip qs do
+          let ins := splitOn p sep
+          let outs := splitOn q sep
+          if ins.length != outs.length then return "fail:C12 number of lines of a paragraph changed (paragraph mode, separator with affixes)"
+          let np := (toks pre).length
+          let ns := (toks suf).length
+          -- tb.New drops one empty last line (the text ends with a separator)
+          let lastIdx := if ns == 0 ∧ ins.length > 1 ∧ (ins.getLastD []).isEmpty then ins.length - 2 else ins.length - 1
+          for ((li, lo), j) in (ins.zip outs).zipIdx do
+            if j ≥ lastIdx ∧ (!od.justifyLast ∨ j > lastIdx) then
+              if li != lo then return "fail:C12 last line of a paragraph was touched (paragraph mode, separator with affixes)"
+            else if (j == 0 ∧ np > 0) ∨ (j + 1 == ins.length ∧ ns > 0) then pure ()
+            else
+              match checkJustifyLine w li lo with
+              | some e => return "fail:" ++ e ++ " (paragraph mode, separator with affixes)"
+              | none => pure ()
+        return "ok"
+
 /-- per-step layout checks for property `pid` -/
 def layoutStep (pid : String) (a : List String) (src : Obs) (res : Obs) : String :=
   match src with
@@ -364,7 +409,10 @@ def layoutStep (pid : String) (a : List String) (src : Obs) (res : Obs) : String
       match parseInt w, effOpts so o with
       | some w, some od =>
         if parasOn od then (if pid == "C07" then checkNonWsPara "Justify" od text out false
-          else if pid == "C12" then checkJustifyPara text w od out else "skip:paragraph-mode")
+          else if pid == "C12" then
+            (let r := checkJustifyPara text w od out
+             if r == "skip:paragraph-separator-with-affixes" then checkJustifyAffix text w od out else r)
+          else "skip:paragraph-mode")
         else if pid == "C12" then checkJustify text w od out
         else if pid == "C07" then checkNonWs "Justify" od.lineSep text out false
         else "skip:op"
